@@ -781,6 +781,35 @@ impl World {
                 }
             }
         }
+        match ev {
+            Ev::Wake { due, idle } => {
+                if !due.is_empty() {
+                    self.stat("wake-reconnects-persistent-peer");
+                }
+                if *idle {
+                    self.stat("wake-runs-idle-task(dequeue)");
+                }
+            }
+            Ev::Recv { n } | Ev::Refs { relayer: n, .. } => {
+                if pre.sessions.get(n).map(|s| s.tag < 2).unwrap_or(false)
+                    && post.sessions.get(n).map(|s| s.tag == 2).unwrap_or(false)
+                {
+                    self.stat("message-forces-session-to-connected");
+                }
+                if pre.sessions.get(n).map(|s| s.tag == 3).unwrap_or(false) {
+                    self.stat("message-from-disconnected-session-ignored");
+                }
+            }
+            _ => {}
+        }
+        if let Ev::Refs { .. } = ev {
+            if ios.iter().any(|io| matches!(io, IoObs::Fetch { refs, .. } if !refs.is_empty())) {
+                self.stat("refs-announcement-starts-fetch");
+            }
+        }
+        if ios.iter().any(|io| matches!(io, IoObs::Disconnect(_))) {
+            self.stat("io-disconnect-after-fetch-timeout");
+        }
         let mut kc_now = false;
         if let Ev::Result { inst, fwd, .. } = ev {
             let i = &self.insts[*inst as usize];
@@ -1193,9 +1222,11 @@ fn main() {
          alphabet (2 peers, 1 repository). Non-trivial = a fetch was started and at least two of {a fetch was queued, a queued fetch was started by \
          dequeue_fetches, a late result was delivered, a result completed a fetch} happened; distinct by event sequence.",
     );
-    run.shard_size(150);
+    // a coqc process costs ~9 s before it reads the first case: use large shards
+    let shard = if run.args.thorough { 1000 } else { 400 };
+    run.shard_size(shard);
     let seed = run.args.seed;
-    let n = run.args.count(1000, 4000);
+    let n = run.args.count(600, 4000);
     for i in 0..n {
         // stream 0: random walk
         let id = format!("0:{}", i);
